@@ -67,6 +67,34 @@ def run(chk, tier, seed):
                     o = common.run([exe, "--dialect", d, "--listo=%d" % listo] + [paths[k] for k in seq])
                     events.append(dict(e="multi", label="own-%s-%d" % ("+".join(seq), listo), dialect=d, listo=listo, out=list(o.out), rc=o.rc if o.rc is not None else -9,
                                        outs=[list(single[k].out) for k in seq], rcs=[single[k].rc for k in seq], inp=[ord(c) for c in "+".join(seq)]))
+        # "reading from a file or from standard input gives the same listing": a file whose name begins with '-' (after --, and after
+        # another file name) and a FIFO are files too
+        for d in ("6502", "Z80", "ARM", "Windows"):
+            tab = tabs[bc.CANON.get(d, d)]
+            data = bc.prog(d, [(10, [0xF1, 34, 72, 105, 34]), (20, [bc.kwbyte(tab, "FOR"), 73, 61, 49]), (30, [0xF1, 73]), (40, [bc.kwbyte(tab, "NEXT")])])
+            plain = os.path.join(scratch, "named-%s.bbc" % d)
+            dash = os.path.join(scratch, "-named-%s.bbc" % d)
+            for p_ in (plain, dash):
+                open(p_, "wb").write(data)
+            fifo = os.path.join(scratch, "fifo-%s" % d)
+            for listo in (0, 7):
+                ref = common.run([exe, "--dialect", d, "--listo=%d" % listo, plain], stdin=b"")
+                o1 = common.run([exe, "--dialect", d, "--listo=%d" % listo, "--", os.path.basename(dash)], cwd=scratch, stdin=b"")
+                o2 = common.run([exe, "--dialect", d, "--listo=%d" % listo, plain, os.path.basename(dash)], cwd=scratch, stdin=b"")
+                if os.path.exists(fifo):
+                    os.unlink(fifo)
+                os.mkfifo(fifo)
+                import threading
+                def feed():
+                    with open(fifo, "wb") as fh:
+                        fh.write(data)
+                th = threading.Thread(target=feed)
+                th.start()
+                o3 = common.run([exe, "--dialect", d, "--listo=%d" % listo, fifo], stdin=b"", timeout=30)
+                th.join(timeout=10)
+                for label, o, want_out in (("dashname", o1, ref.out), ("after-file", o2, ref.out + ref.out), ("fifo", o3, ref.out)):
+                    events.append(dict(e="same", label="named-" + label, dialect=d, listo=listo, out=list(want_out), out2=list(o.out),
+                                       rc=ref.rc if ref.rc is not None else -9, rc2=o.rc if o.rc is not None else -9))
         for e in events:
             if e["e"] == "run":
                 chk.case((e["dialect"], e["listo"], bytes(e["inp"])), nontrivial=e["rc"] == 0 and len(e["out"]) > 0)
